@@ -51,7 +51,7 @@ def classify(e, dom):
     return None
 
 
-def job(args):
+def _job(args):
     """worker: (spec, console_width, opts, widths) -> {"cases": [(fn, args, impl, shape, sample)], "checks": [...], "notes": {...}}"""
     spec, cwidth, opts, widths = args[:4]
     shared = len(args) > 4 and args[4]
@@ -95,6 +95,15 @@ def job(args):
             checks.append((ok, "Console.render", (spec, cwidth, opts, w) if not ok else None,
                            f"a line is {max(lw)} cells wide with {w} available (structural minimum {sm})", classify(spec, dom) if not ok else None))
     return {"cases": cases, "checks": checks, "notes": notes}
+
+
+def job(args):
+    try:
+        return _job(args)
+    except BaseException as ex:  # noqa: BLE001 - building / encoding the tree on real rich raised: an observation, not a harness error
+        if isinstance(ex, (KeyboardInterrupt, SystemExit)):
+            raise
+        return {"cases": [], "checks": [(False, "building or encoding the renderable", args[0], f"raised {type(ex).__name__}: {ex}", None)], "notes": {}}
 
 
 def account(ctx, results):
@@ -154,7 +163,7 @@ def run(ctx):
         for cwidth in (80, 20):
             jobs.append((spec, cwidth, {}, ws if cwidth == 80 else ws[: sm + 6]))
     # ---- B: seeded random trees, depth <= 4, all options; console width != render width in a third of the cases
-    n = 3000 if quick else 60000
+    n = 3000 if quick else 36000
     for i in range(n):
         d = rng.choice([1, 2, 2, 3, 3, 4])
         spec = L.gen_tree(rng, d)
@@ -230,7 +239,7 @@ MANIFEST = {
     "Console.render's Segment stream is wider than w; containers that crop (padding, panel, table, columns, tree) need nothing of their children, "
     "the pass-through ones (group, styled, constrain, align, casts) use the induction hypothesis, text uses wrap/truncate (C02), tables use "
     "width_fits (C07) restricted to columns free to wrap exactly as the property says; `known_progressbar_in_group_overflows` machine-checks "
-    "the one excluded built-in case (F23).  Tie: ~40k (quick) / ~800k (thorough) renderings of hand-written corner trees and seeded random "
+    "the one excluded built-in case (F23).  Tie: ~40k (quick) / ~700k (thorough) renderings of hand-written corner trees and seeded random "
     "trees (depth <= 4, all options, ASCII/CJK/emoji/combining/zero-width content, newlines, tabs) compared character for character with "
     "real Console.render (not Console.print), widths smin-2..smin+12 densely and up to 200, several console widths, objects re-rendered to "
     "expose kept state; smin computed independently in Python and cross-checked; the property evaluated directly on rich's own output.",
